@@ -6,6 +6,7 @@ package main
 import (
 	"bytes"
 	"errors"
+	"filippo.io/age/plugin"
 	"fmt"
 	"os"
 	"path/filepath"
@@ -392,7 +393,7 @@ func hasDup(l []string) bool {
 }
 
 func checkC11(c *Ctx) {
-	c.rule = "custom recipients through the public Recipient / RecipientWithLabels interfaces: ALL lists of 1-3 (thorough: 4) recipients x label assignments from {no labels interface, [], [a], [b], [a b], [b a], [a b c], [a a]}; a failing wrap at each position; Encrypt's verdict, and the number of Write calls the destination received. distinct_nontrivial = distinct (label assignment, failing position) cases."
+	c.rule = "custom recipients through the public Recipient / RecipientWithLabels interfaces: ALL lists of 1-3 (thorough: 4) recipients x label assignments from {no labels interface, [], [a], [b], [a b], [b a], [a b c], [a a]}; a failing wrap at each position; late refusals after headers of 2-60 KB; a plugin recipient that reports an error before / after a stanza; Encrypt's verdict, and the number of Write calls the destination received. distinct_nontrivial = distinct (label assignment, failing position) cases."
 	opts := []struct {
 		name   string
 		has    bool
@@ -458,6 +459,63 @@ func checkC11(c *Ctx) {
 	}
 	rec(nil)
 	c.exhaustive = true
+	// a LATE refusal after a LARGE header: many recipients / big stanzas before the one that is refused (a failing
+	// wrap, or other labels); nothing may have reached the destination, however the header is assembled
+	for _, shape := range []struct {
+		name string
+		n    int
+		body int
+	}{{"60-small-stanzas", 60, 32}, {"5-stanzas-of-3000-bytes", 5, 3000}, {"2-stanzas-of-20000-bytes", 2, 20000}} {
+		for _, how := range []string{"failing-wrap", "other-labels"} {
+			var ps []*party
+			for i := 0; i < shape.n; i++ {
+				ps = append(ps, stubParty([]*age.Stanza{{Type: "stub", Args: []string{fmt.Sprint(i)}, Body: c.rng.bytes(shape.body)}}, nil, false, false))
+			}
+			if how == "failing-wrap" {
+				ps = append(ps, stubParty([]*age.Stanza{{Type: "stub", Args: []string{"last"}, Body: nil}}, nil, false, true))
+			} else {
+				ps = append(ps, stubParty([]*age.Stanza{{Type: "stub", Args: []string{"last"}, Body: nil}}, []string{"x"}, true, false))
+			}
+			ok, sink := encryptToSink(ps, c.rng.bytes(64))
+			in := map[string]interface{}{"header_shape": shape.name, "refused_because": how}
+			c.Oracle("failing-wrap-refuses", !ok, "wrap-failure-ignored", in, "Encrypt succeeded although the last recipient must be refused")
+			c.Oracle("refusal-writes-nothing", sink.calls == 0, "refusal-wrote-bytes", in, fmt.Sprintf("Encrypt refused after %d write calls (%d bytes) had reached the destination", sink.calls, len(sink.acc)))
+			c.count("late-refusal")
+			c.note("late:"+shape.name+how, true)
+		}
+	}
+	// a PLUGIN recipient that reports an error, before or after producing a stanza, fails to wrap: Encrypt refuses
+	{
+		pe := setupPluginEnv()
+		for _, script := range []string{
+			"-> recipient-stanza 0 t a\nQUJD\n-> error recipient 0\nYm9vbQ\n",
+			"-> error recipient 0\nYm9vbQ\n-> recipient-stanza 0 t a\nQUJD\n-> done\n\n",
+			"-> recipient-stanza 0 t a\nQUJD\n-> error internal\nYm9vbQ\n-> done\n\n",
+			"-> error internal\nYm9vbQ\n",
+		} {
+			for _, pos := range []int{0, 1} {
+				r, err := plugin.NewRecipient(plugin.EncodeRecipient("verif", []byte("data")), uiCfg{"ok", "ok", "yes"}.client())
+				if err != nil {
+					panic(err)
+				}
+				pe.play([]byte(script))
+				native := c.freshParty("x25519").rcpt
+				rs := []age.Recipient{r, native}
+				if pos == 1 {
+					rs = []age.Recipient{native, r}
+				}
+				clearTape()
+				sink := &planSink{}
+				_, eerr := age.Encrypt(sink, rs...)
+				in := map[string]interface{}{"plugin_output": script, "plugin_recipient_at": pos}
+				c.Oracle("failing-wrap-refuses", eerr != nil, "wrap-failure-ignored", in, "Encrypt succeeded although the plugin reported an error for its recipient")
+				c.Oracle("refusal-writes-nothing", sink.calls == 0, "refusal-wrote-bytes", in, fmt.Sprintf("%d write calls reached the destination", sink.calls))
+				c.count("plugin-recipient-error")
+				c.note(fmt.Sprint("pluginerr:", script, pos), true)
+			}
+		}
+		pe.close()
+	}
 	// the real label producers: passphrase recipient with anything
 	for _, other := range []string{"x25519", "ssh-ed25519", "scrypt"} {
 		ps := []*party{scryptParty("pw", 2, 10), c.freshParty(other)}
